@@ -290,12 +290,16 @@ class Statement(object):
                     length += statement.code_pkg.size
                 if self.instruction.is_short_branch and length - 1 > 128:
                     raise TranslationError("branch target is out of range for a short branch", self)
+                if length > base_value:
+                    raise TranslationError("branch target is out of range", self)
                 self.code_pkg.additional = NumericValue(base_value - length, size_hint=size_hint)
             else:
                 for statement in statements[this_index+1:branch_index]:
                     length += statement.code_pkg.size
                 if self.instruction.is_short_branch and length > 127:
                     raise TranslationError("branch target is out of range for a short branch", self)
+                if length > 0xFFFF:
+                    raise TranslationError("branch target is out of range", self)
                 self.code_pkg.additional = NumericValue(length, size_hint=size_hint)
             return
 
